@@ -89,7 +89,8 @@ def run(chk, prog):
             continue
         dm = ch[1][1]
         pre, post = kwarg(dm, "pre"), kwarg(dm, "post")
-        if ev.closure_of(pre) is None or ev.closure_of(post) is None:
+        applicable = lambda t_: ev.closure_of(t_) is not None or (is_t(t_, "global") and t_[1].rsplit(".", 1)[-1] in m.funcs)  # local or module-level function
+        if not applicable(pre) or not applicable(post):
             raise AnalysisError(f"{name}: pre/post are not local functions")
         rp = ev.apply(pre, [P("state"), P("flag")], module=m)
         chk.require(rp == ("tuple", (P("flag"), P("state"))), "SCORE-GATE", inst + "/pre", "flag becomes MaskCombinator's first argument",
@@ -119,7 +120,9 @@ def run(chk, prog):
             d2 = ch[3][1]
             p2, q2 = kwarg(d2, "pre"), kwarg(d2, "post")
             rp2 = ev.apply(p2, [("star", P("$a"))], module=m) if p2 is not None else None
-            chk.require(q2 is not None and is_t(q2, "global") and q2[1].endswith("prepend_initial_acc"), "COMPOSE", inst + "/final", "initial state prepended to the stacked values",
-                        derived=show(q2), expected="post=prepend_initial_acc", where=where)
+            from ..gfi.scan import prepend_form
+            okq2, tq2 = prepend_form(ev, q2, m) if q2 is not None else (False, None)
+            chk.require(okq2, "COMPOSE", inst + "/final", "initial state prepended to the stacked values",
+                        derived=show(tq2)[:200] if tq2 is not None else show(q2), expected="post = (args, _, ret) -> tree_map(concatenate([init[newaxis], stacked]), args[0], ret[1])  (prepend_initial_acc)", where=where)
         sc = ch[2][1]
         chk.require(not sc[2] and not sc[3], "COMPOSE", inst + "/scan", "length inferred from the mask array", derived=show(sc)[-60:], expected=".scan()", where=where)
